@@ -208,6 +208,22 @@ def _case(draw):
             valid_src = el
         else:
             els.append(draw(gen.any_element(kind, subtype, False, False)))
+    if subtype == 'int16' and els and draw(st.booleans()):
+        # stretch the whole array to the edge of the int16 range: every coordinate still fits, but coordinate DIFFERENCES
+        # exceed 2^15 (harmless for scalar kernels, which numba promotes to int64; fatal for narrow array arithmetic)
+        mx = max([abs(v) for e in els if e for v in model.flat_coords(kind, e)] or [1])
+        m = max(1, 32767 // max(1, mx))
+        stretch = draw(st.sampled_from(['xy', 'x', 'y']))
+
+        def big(el):
+            if not el:
+                return el
+            polys = [el] if kind == 'polygon' else el
+            out = [[[v * (m if (i % 2 == 0 and 'x' in stretch) or (i % 2 == 1 and 'y' in stretch) else 1) for i, v in enumerate(r)] for r in poly] for poly in polys]
+            return out[0] if kind == 'polygon' else out
+        els = [big(e) for e in els]
+        if valid_src is not None:
+            valid_src = big(valid_src)
     boxes, grid = [], None
     if valid_src is not None:
         fl = model.flat_coords(kind, valid_src)
